@@ -126,12 +126,15 @@ def run_cases(h, texts, variant="asan", timeout=600):
     done = {}
     start = 0
     guard = 0
-    while start < len(texts) and guard < 40:
+    hangs = 0      # a process that stops producing output for 60 s is killed; three such hangs end the exploration
+    while start < len(texts) and guard < 40 and hangs < 3:
         guard += 1
         lines = []
         for name, ls in texts[start:]:
             lines.extend(ls)
-        rc, o, e = C.run_lines([h, os.path.join(C.scratch(), "conc-%s.db" % variant)], lines, timeout=timeout, env=env)
+        rc, o, e = C.run_lines_stall([h, os.path.join(C.scratch(), "conc-%s.db" % variant)], lines, timeout=timeout, stall=60, env=env)
+        if rc == -999:
+            hangs += 1
         rs = parse(o)
         errs = split_stderr(e)
         n_complete = 0
